@@ -113,6 +113,14 @@ def correspond(ctx, scale):
         if (ci // 2) % 3 == 1:
             kw.update(straight_through=True, rotation_trick=False)        # straight-through (soft one-hot) estimator: the SAMPLING law must be the same
             dist['straight_through_configs'] = dist.get('straight_through_configs', 0) + 1
+        inplace = ci % 7 == 3 and not cosine and train
+        if inplace:
+            # learnable codebook with the in-place optimiser: a training call quantizes TWICE (again after the optimiser step); both draws follow the
+            # temperature in force for the call
+            from functools import partial as _partial
+            from torch.optim import SGD as _SGD
+            kw.update(learnable_codebook=True, ema_update=False, in_place_codebook_optimizer=_partial(_SGD, lr=0.01))
+            dist['in_place_optimizer_configs'] = dist.get('in_place_optimizer_configs', 0) + 1
         hm = (ci // 4) % 3          # heads: 1 | 2 with separate codebooks | 2 sharing one codebook - the noise is independent per head, position and code
         if residual:
             mod = ResidualVQ(dim=d, num_quantizers=2, **kw)
@@ -140,8 +148,11 @@ def correspond(ctx, scale):
                 if amb is not None:
                     torch.set_default_dtype(amb)
                     dist['calls_under_other_default_dtype'] = dist.get('calls_under_other_default_dtype', 0) + 1
-                with torch.no_grad():
-                    mod(x, freeze_codebook=True, **({'sample_codebook_temp': Tcall} if Tcall is not None else {}))
+                if inplace:
+                    mod(x, **({'sample_codebook_temp': Tcall} if Tcall is not None else {}))          # not frozen, gradients on: the optimiser path runs
+                else:
+                    with torch.no_grad():
+                        mod(x, freeze_codebook=True, **({'sample_codebook_temp': Tcall} if Tcall is not None else {}))
             except Exception as ex:
                 failures.append({'key': f'exception:{type(ex).__name__}', 'what': f'{kw} T={Tcall} default dtype {amb}: {ex!r}', 'case': dict(kw=kw)})
                 break
